@@ -1,7 +1,7 @@
 (* C12 property theorems (statements only).  Model: C03/Model.v (matcher, MapAdapter.match,
    make_redirect_url, quote, urlunsplit) + C12/Model.v (url_root, on_host). *)
 From Coq Require Import ZArith.
-From Wz Require Import lib.Bytes C03.Gen C03.Trie C03.Model C03.Proofs C04.Model C12.Model C12.Proofs.
+From Wz Require Import lib.Bytes lib.Utf8 C03.Gen C03.Trie C03.Model C03.Proofs C04.Model C12.Model C12.Proofs.
 Open Scope N_scope.
 
 (* every redirect MapAdapter.match issues for a missing trailing slash or for merged slashes is
@@ -70,3 +70,41 @@ Theorem C12_host_is_bound_server : forall m a dp,
   exists sub, get_host m a dp = (if is_nil sub then [] else sub ++ [DOT]) ++ a_server a.
 Proof. exact get_host_bound. Qed.
 Print Assumptions C12_host_is_bound_server.
+
+(* C12_converges, partial: DESIGN.md plans "the target matches, for the rule that caused the redirect,
+   without a further redirect of the same kind".  Proved here for every slash / merged-slash redirect:
+   the rule that caused it admits the target path p' directly for the same method and protocol, hence
+   (C03_served_never_refused) the follow-up request for any path_info addressing p' is answered by a
+   match or a redirect, never NotFound / MethodNotAllowed.  NOT proved (what "partial" stands for): that
+   this answer is a match of that very rule with no further hop - that needs the priority order on the
+   candidates of p' and is checked by the harness, which follows every redirect (c12.py, judge_c12).
+   rule_wf: path converters only as the trailing segment, no empty literal segment (the C03 grammar);
+   uniform_merge: merge_slashes set at map level.  The second disjunct is the builder's redirects. *)
+Theorem C12_converges_partial : forall m a p me u,
+  (forall r, In r (m_rules m) -> rule_wf r = true) -> uniform_merge m ->
+  router_match m a p me = RedirectTo u ->
+  (exists p', u = make_redirect_url m a (quote safe_redirect p') None
+     /\ (exists r v, In r (m_rules m) /\ admits m r (domain_part m a :: split_slash p') = ADirect _ v
+                     /\ rmethod_ok r (upper me) = true /\ r_websocket r = a_websocket a)
+     /\ forall p2, path_part p2 = p' ->
+          (exists r' vs, router_match m a p2 me = Match r' vs) \/ (exists u', router_match m a p2 me = RedirectTo u')
+          \/ (exists e, router_match m a p2 me = Raised e))
+  \/ (exists r v, In r (m_rules m) /\ admits m r (request_parts m a p) = ADirect _ v /\ m_redirect_defaults m = true
+        /\ (r_alias r = true /\ alias_redirect_url m a (upper me) r (dict_update v (r_defaults r)) = BOk u
+            \/ get_default_redirect m a (upper me) r (dict_update v (r_defaults r)) = BOk (Some u))).
+Proof. exact converges_partial. Qed.
+Print Assumptions C12_converges_partial.
+
+Example C12_converges_example :
+  (forall r, In r (m_rules (mk_map [ex_r3])) -> rule_wf r = true) /\ uniform_merge (mk_map [ex_r3])
+  /\ exists u, router_match (mk_map [ex_r3]) ex_adapter_app [47; 47; 101; 118; 105; 108; 46; 99; 111; 109; 47; 51] GET = RedirectTo u.
+Proof. exact ex_converges_hyps. Qed.
+Print Assumptions C12_converges_example.
+
+(* the redirect URL addresses that target: behind the root, percent-decoded, is the target path *)
+Theorem C12_redirect_addresses_target : forall m a p',
+  has (eff_scheme a) uses_netloc = true -> valid_text p' = true ->
+  exists rest, make_redirect_url m a (quote safe_redirect p') None = url_root m a None ++ rest ++ query_suffix a
+               /\ unquote rest = lstrip_slash p'.
+Proof. exact redirect_url_addresses_target. Qed.
+Print Assumptions C12_redirect_addresses_target.
